@@ -7,6 +7,7 @@ import (
 	"fmt"
 	"math"
 	"strings"
+	"sync"
 
 	"github.com/bmeg/grip/kvi"
 	"github.com/bmeg/grip/log"
@@ -38,6 +39,9 @@ func containsPrefix(c string, s []string) bool {
 type KVIndex struct {
 	KV     kvi.KVInterface
 	Fields map[string][]string
+	//fieldsMu guards Fields: fields are added and removed (graph creation and
+	//deletion) while other requests add documents
+	fieldsMu sync.RWMutex
 }
 
 // KVTermCount Get all terms and their counts
@@ -60,7 +64,9 @@ func NewIndex(kv kvi.KVInterface) *KVIndex {
 // AddField add new field to be indexed
 func (idx *KVIndex) AddField(path string) error {
 	fk := FieldKey(path)
+	idx.fieldsMu.Lock()
 	idx.Fields[path] = strings.Split(path, ".")
+	idx.fieldsMu.Unlock()
 	return idx.KV.Set(fk, []byte{})
 }
 
@@ -71,7 +77,9 @@ func (idx *KVIndex) RemoveField(path string) error {
 	ed := EntryPrefix(path)
 	idx.KV.DeletePrefix(fkt)
 	idx.KV.DeletePrefix(ed)
+	idx.fieldsMu.Lock()
 	delete(idx.Fields, path)
+	idx.fieldsMu.Unlock()
 	return idx.KV.Delete(fk)
 }
 
@@ -105,6 +113,8 @@ func (idx *KVIndex) AddDocTx(tx kvi.KVBulkWrite, docID string, doc map[string]in
 	sdoc := Doc{Entries: [][]byte{}}
 	docKey := DocKey(docID)
 
+	idx.fieldsMu.RLock()
+	defer idx.fieldsMu.RUnlock()
 	for field, p := range idx.Fields {
 		x := mapDig(doc, p)
 		if x != nil {
